@@ -269,6 +269,20 @@ def gridder_obligations():
     return tie("GridderSrc", _BASE_CLASSES, GRIDDER_FUNCS, "pylite_gridder.v.tmpl", GRIDDER_THEOREMS, GRIDDER_IMPORTS)
 
 
+GRIDDERM_FUNCS = GRIDDER_FUNCS + [(_BASE_UTILS, "check_data"), "BaseGridder.grid", "BaseGridder.scatter",
+                                  "BaseGridder.profile"]
+GRIDDERM_THEOREMS = ["src_BaseGridder_grid_eq", "src_BaseGridder_scatter_eq", "src_BaseGridder_profile_eq"]
+GRIDDERM_TEMPLATES = ["pylite_gridder.v.tmpl", "pylite_gridder_methods.v.tmpl"]
+
+
+def c05_obligations():
+    """gridder_obligations and, in the same generated file, the glue of BaseGridder.grid / scatter / profile
+    (harness/pylite_gridder_methods.v.tmpl): which callee receives which arguments in which order, what is
+    projected and what is not, what the Dataset / DataFrame is built from"""
+    return tie("GridderSrc", _BASE_CLASSES, GRIDDERM_FUNCS, GRIDDERM_TEMPLATES, GRIDDER_THEOREMS + GRIDDERM_THEOREMS,
+               GRIDDER_IMPORTS)
+
+
 SURFER_FUNCS = ["_read_surfer_header", "_check_surfer_integrity"]
 SURFER_THEOREMS = ["src_read_surfer_header_eq", "src_check_surfer_integrity_eq"]
 SURFER_IMPORTS = ("From Verde Require Import Lib.Dyadic Model.Surfer Proofs.SurferProofs Proofs.PyLiteBridge "
